@@ -1239,6 +1239,33 @@ func (c *Ctx) derivedFromParam(v ssa.Value, p *ssa.Parameter, depth int) bool {
 				return true
 			}
 		}
+	case *ssa.Extract:
+		if call, ok := x.Tuple.(*ssa.Call); ok {
+			return c.callMayReturnArgOf(call, x.Index, p, depth)
+		}
+	case *ssa.Call:
+		return c.callMayReturnArgOf(x, 0, p, depth)
+	}
+	return false
+}
+
+// callMayReturnArgOf: result resIdx of the call can be one of the callee's own parameters (the module callee returns
+// it on some path), and the matching argument is derived from p — the result then aliases p.
+func (c *Ctx) callMayReturnArgOf(call *ssa.Call, resIdx int, p *ssa.Parameter, depth int) bool {
+	callee := call.Call.StaticCallee()
+	if callee == nil || callee.Pkg == nil || !strings.HasPrefix(callee.Pkg.Pkg.Path(), modPath) || len(callee.Blocks) == 0 || depth > 4 {
+		return false
+	}
+	for _, r := range c.returnsOf(callee) {
+		rv := resultValues(r)
+		if resIdx >= len(rv) {
+			continue
+		}
+		for pi, cp := range callee.Params {
+			if pi < len(call.Call.Args) && c.derivedFromParam(rv[resIdx], cp, depth+1) && c.derivedFromParam(call.Call.Args[pi], p, depth+1) {
+				return true
+			}
+		}
 	}
 	return false
 }
